@@ -4,8 +4,11 @@ from harness import truth
 from harness import worlds
 
 PROP = "C04"
-LEAN_MODULE = "Ztr.Props.C05"
-THEOREMS = ['Ztr.Result.runTests_between', 'Ztr.Result.runTest_bracket']
+LEAN_MODULE = "Ztr.Props.C04"
+LEAN_DEPS = ["Ztr.Props.C05", "Ztr.Props.C01", "Ztr.Props.C12"]
+THEOREMS = ['Ztr.Runner.C04_no_abort', 'Ztr.Runner.C04_summary_each_iteration', 'Ztr.Runner.C04_layer_failure_recorded',
+            'Ztr.Runner.C04_all_torn_down', 'Ztr.Runner.runTests_not_aborted',
+            'Ztr.Result.runTests_between', 'Ztr.Result.runTest_bracket']
 RULE = ("worlds whose tests raise (failure / error / SystemExit / SkipTest) in every phase (setUp, body, subtests, "
         "tearDown, cleanups), produce 1..3 result events per test, at every position of a layer; layers whose setUp or "
         "tearDown raises; --buffer on/off; verbosity 0-3; in-process, resumed and -j children. Observed: the run ends "
